@@ -1,6 +1,6 @@
 #!/bin/bash
 # usage: tools/seed_batch.sh "C14 1" "C14 2" ...   (4 at a time)
-run_one() { set -- $1; /venv/bin/python /verif/tools/seed.py $1 /tmp/wt_$1/_mut/$2 ${1}-m$2 ${3:+--checks $3} > /tmp/seed_${1}_$2.log 2>&1; }
+run_one() { set -- $1; /venv/bin/python /verif/tools/seed.py $1 ${WT_PREFIX:-/tmp/wt_}$1/_mut/$2 ${1}-m$2 ${3:+--checks $3} > /tmp/seed_${1}_$2.log 2>&1; }
 export -f run_one
 printf '%s\n' "$@" | xargs -P 4 -I{} bash -c 'run_one "{}"'
 for x in "$@"; do set -- $x; /venv/bin/python - <<PY
